@@ -259,6 +259,9 @@ func Exec(c *vlib.HistCase) (nontrivial bool, labels []string, fail *vlib.Failur
 		}
 		if !res.OK {
 			vlib.GetStats("C10").Discard("step-refused")
+			if os.Getenv("VERIF_DEBUG") != "" {
+				fmt.Printf("DEBUG refused: %s\n", res.ErrText())
+			}
 			break
 		}
 	}
